@@ -1,11 +1,11 @@
 SPECIFICATION Spec
 CONSTANTS
   Atomic = TRUE
-  SkipTruth = FALSE
+  SkipTruth = TRUE
   MaxRuns = 2
   BySpelling = FALSE
-  Twin = FALSE
-  Rich = TRUE
+  Twin = TRUE
+  Rich = FALSE
   SkipKind = FALSE
 INVARIANT Agreement
 INVARIANT TruthUntouched
